@@ -380,7 +380,7 @@ def run_property(pid, tier):
         "checker_cmd": f"./check {pid} --tier {tier}",
         "trusted_base": reg.get("trusted_base", []) + [
             "pyvc's model of the Python subset (DESIGN.md 3.2): unbounded ints, byte sequences as z3 Seq(Int) with octet range, Python slice/index semantics, implicit exceptions from the modelled list",
-            "z3 " + _z3v() + " (unsat answers); spec functions in /verif/specs as oracles",
+            "z3 " + _z3v() + ", and through SMT-LIB text z3 4.8.12 and cvc5 1.0.3 (an `unsat` from any of them is accepted; `backends` counts who proved what); spec functions in /verif/specs as oracles",
         ],
         "functions_under_contract": func_rows,
         "obligation_names_proved": len(proved_names), "baseline_names": len(baseline),
